@@ -11,6 +11,7 @@ from ..protocol.request import GeminiRequest
 from ..protocol.response import GeminiResponse
 from ..protocol.status import StatusCode
 from .handler import RequestHandler
+from .protocol import MAX_META_SIZE
 
 logger = logging.getLogger(__name__)
 
@@ -79,10 +80,12 @@ class ProxyHandler(RequestHandler):
 
         # Create client for upstream requests
         # Disable TOFU - proxy acts as transparent relay, not validator
+        # Bodies are relayed as the bytes received, never decoded and re-encoded
         self._client = GeminiClient(
             timeout=timeout,
             verify_ssl=False,
             trust_on_first_use=False,
+            decode_body=False,
         )
 
         logger.debug(
@@ -162,6 +165,15 @@ class ProxyHandler(RequestHandler):
                 upstream_url,
                 response.status,
             )
+
+            # A header that cannot be relayed as received (over-long META, bare
+            # CR or LF) is an upstream fault, not something to repair silently
+            meta_bytes = response.meta.encode("utf-8")
+            if len(meta_bytes) > MAX_META_SIZE or b"\r" in meta_bytes or b"\n" in meta_bytes:
+                return GeminiResponse(
+                    status=StatusCode.PROXY_ERROR.value,
+                    meta="Upstream sent a malformed response header",
+                )
 
             # Pass through the response as-is
             return response
